@@ -11,8 +11,8 @@ def imputer_classes(prog):
     out = []
     for c in prog.subclasses(base_class(prog, "IMPUTER"), strict=True):
         owner, fn = prog.find_method(c, "impute")
-        if fn is None:
-            continue
+        if fn is None or c.name.startswith("_"):
+            continue            # private intermediate bases are analysed through their public subclasses
         body = [n for n in fn.body if not (isinstance(n, ast.Expr) and isinstance(n.value, ast.Constant))]
         if len(body) == 1 and isinstance(body[0], ast.Raise):
             continue
